@@ -260,8 +260,12 @@ def check_depth_sort(ck: Check, repo: Repo, r) -> None:
     q = f"{GL}.NestedReuseTOML._find_relevant_tomls"
     fn = repo.func(q)
     ck.analysed_fn(q, f"{GL}.NestedReuseTOML.reuse_info_of", f"{GL}.NestedReuseTOML._find_relevant_tomls_and_items")
+    from ..rules import frag
     src = squash(ast.unparse(fn))
-    filt = "for toml in self.reuse_tomls: if PurePath(path).is_relative_to(toml.directory): found.append(toml)" in src
+    bind = frag(src, "for toml in self.reuse_tomls: if PurePath(path).is_relative_to(toml.directory): found.append(toml)",
+                ["toml", "path", "found"])
+    filt = bind is not None
+    acc = bind["found"] if bind else "found"
     def depth_key(call: ast.Call) -> bool:
         """key=lambda t: t.directory.parts (or its length): orders by depth of the REUSE.toml's directory."""
         key = next((kw.value for kw in call.keywords if kw.arg == "key"), None)
@@ -271,10 +275,10 @@ def check_depth_sort(ck: Check, repo: Repo, r) -> None:
         return ast.unparse(key.body) in (f"{x}.directory.parts", f"len({x}.directory.parts)")
 
     sorts = [(i, s.value) for i, s in enumerate(fn.body) if isinstance(s, ast.Expr) and isinstance(s.value, ast.Call)
-             and ast.unparse(s.value.func) == "found.sort"]
+             and ast.unparse(s.value.func) == f"{acc}.sort"]
     ret = [i for i, s in enumerate(fn.body) if isinstance(s, ast.Return)]
     ret_sorted = bool(ret) and isinstance(fn.body[ret[0]].value, ast.Call) and ast.unparse(fn.body[ret[0]].value.func) == "sorted" \
-        and ast.unparse(fn.body[ret[0]].value.args[0]) == "found" and depth_key(fn.body[ret[0]].value)
+        and ast.unparse(fn.body[ret[0]].value.args[0]) == acc and depth_key(fn.body[ret[0]].value)
     stmt_sorted = any(depth_key(c) and not any(kw.arg == "reverse" for kw in c.keywords) and ret and i < ret[0] for i, c in sorts)
     keys = [ast.unparse(kw.value) for _, c in sorts for kw in c.keywords if kw.arg == "key"]
     r.instance("relevant-tomls", {"filter": filt, "sort_keys": keys, "sorted_by_depth": stmt_sorted or ret_sorted})
@@ -299,8 +303,11 @@ def rule_nesting(ck: Check, repo: Repo) -> None:
     q1 = f"{GL}.NestedReuseTOML._find_relevant_tomls_and_items"
     f1 = repo.func(q1)
     s1 = squash(ast.unparse(f1))
-    ok = "for toml in tomls:" in s1 and "if item is not None: toml_items.append((toml, item))" in s1 \
-        and "tomls = self._find_relevant_tomls(adjusted_path)" in s1
+    from ..rules import has
+    L1 = ["toml", "tomls", "item", "toml_items", "adjusted_path", "relpath"]
+    ok = has(s1, "tomls = self._find_relevant_tomls(adjusted_path)", L1) and \
+        has(s1, "for toml in tomls: relpath = adjusted_path.relative_to(toml.directory) item = toml.find_annotations_item(relpath)"
+                " if item is not None: toml_items.append((toml, item))", L1)
     r.instance("relevant-items", {"ok": ok})
     if not ok:
         r.violation(q1, "item collection", "every relevant REUSE.toml contributes its matching item, in depth order", repo.loc(f1))
@@ -310,7 +317,7 @@ def rule_nesting(ck: Check, repo: Repo) -> None:
 
     class H(Hooks):
         def atom(self, text, node, it):
-            if text in ("keyval[1].precedence == PrecedenceType.OVERRIDE", "item.precedence == PrecedenceType.OVERRIDE"):
+            if re.fullmatch(r"\w+(\[1\])?\.precedence == PrecedenceType\.OVERRIDE", text):
                 return "is_override"
             if text == "result[PrecedenceType.CLOSEST]":
                 return "closest_nonempty"
@@ -332,8 +339,11 @@ def rule_nesting(ck: Check, repo: Repo) -> None:
 
     walk_ok = 0
 
+    walk_loops = [n for n in f2.body if isinstance(n, ast.For)]
+    WL = f"each {ast.unparse(walk_loops[0].target)} in {ast.unparse(walk_loops[0].iter)}::" if walk_loops else "?"
+
     def wref(v: Valuation):
-        return v("each keyval in toml_items::is_override")
+        return v(WL + "is_override")
 
     for d, leaf, _ in tabulate(f2, H(), wref):
         ends = [e[2][1] for e in leaf.events if e[0] == "each" and e[2][0] == "element-end" and "toml_items" in e[1][-1] or
@@ -342,7 +352,7 @@ def rule_nesting(ck: Check, repo: Repo) -> None:
         coll = [e[2] for e in leaf.events if e[0] == "each" and e[2][0] == "collect"]
         short = {k.split("::")[-1]: v for k, v in d.items()}
         r.instance("walk:" + show_valuation(short), {"valuation": show_valuation(short), "element_exit": ends})
-        if len(coll) != 1 or coll[0][1] not in ("keyval[1].precedence", "item.precedence"):
+        if len(coll) != 1 or not re.fullmatch(r"\w+(\[1\])?\.precedence", coll[0][1]):
             r.violation(q2, "collection key", f"every item must be collected under its own precedence: {coll}", repo.loc(f2))
             continue
         txt = coll[0][2]
@@ -365,7 +375,9 @@ def rule_nesting(ck: Check, repo: Repo) -> None:
     if len(loops) != 2:
         raise AnalysisError("NestedReuseTOML.reuse_info_of: expected the walk and the clean-up loop")
     walk, clean = loops
-    if ast.unparse(walk.iter) != "toml_items" or "toml_items: list[tuple[ReuseTOML, AnnotationsItem]] = self._find_relevant_tomls_and_items(path)" not in ast.unparse(f2):
+    from ..rules import single_assign_value
+    wsrc = single_assign_value(f2, ast.unparse(walk.iter)) if isinstance(walk.iter, ast.Name) else walk.iter
+    if wsrc is None or ast.unparse(wsrc) != "self._find_relevant_tomls_and_items(path)":
         r.violation(q2, "walk source", "the walk must iterate the depth-ordered relevant items", repo.loc(walk))
     # clean-up loop as a flag machine: state (copyright_found, licence_found) x element (has_c, has_l)
     it = ast.unparse(clean.iter)
